@@ -510,9 +510,11 @@ func runInverse(c *eng.Ctx, cc compCfg) {
 		return
 	}
 	// relative error of the inverse: the Goldschmidt iteration count is chosen by the library for a relative error
-	// (1-x)^(2^iters) below the scheme precision 2^-(logscale-logN+1); 2^-20 is far above it and far below any
+	// (1-x)^(2^iters) below the scheme precision 2^-(logscale-logN+1); 2^-30 is far above it and far below any
 	// structural fault (a skipped iteration at x = 2^log2min leaves an error of order 1)
-	tol := math.Exp2(-20)
+	// (frozen floor: the worst relative error observed on the unchanged tree over the thorough tier of this family
+	// - scale 2^90 - is 2^-53; the documented target is N/2/scale ~ 2^-80)
+	tol := math.Exp2(-30)
 	worst, wi := 0.0, -1
 	for i, v := range vals {
 		if e := math.Hypot(real(out[i])*v-1, imag(out[i])*v); e > worst || math.IsNaN(e) {
@@ -724,6 +726,19 @@ func drawComposite(r *eng.Rand, idx int, tier string) compCfg {
 	case "inv-pos", "inv-neg", "inv-full":
 		cc.Log2Min = -float64(2 + r.N(12))
 		cc.Log2Max = float64(eng.Pick(r, 0, 0, 2, 5))
+		// the bounds are real numbers. One case in three per entry point is the corner in which the interval barely
+		// leaves (0, 1] while its lower end is next to 1 (the upper end is then the point farthest from 1, the one
+		// that decides how many iterations are needed); another one has generic non-integer bounds.
+		switch cc.Variant % 3 {
+		case 1:
+			cc.Log2Min = -eng.Pick(r, 0.25, 0.5, 0.75)
+			cc.Log2Max = eng.Pick(r, 0.9, 0.95, 0.99)
+		case 2:
+			if r.Bool() {
+				cc.Log2Min = -eng.Pick(r, 0.5, 2.5, 3.3)
+				cc.Log2Max = eng.Pick(r, 0.3, 0.5, 1.5, 2.7)
+			}
+		}
 	case "mod1":
 		cc.LogN = eng.Pick(r, 8, 8, 9)
 		if tier == "thorough" {
